@@ -79,9 +79,8 @@ func VerifC15Parse() {
 
 // VerifC15Covers: for valid commands, Covers is the segment-prefix relation.
 func VerifC15Covers() {
-	L := vParam("L")
-	la := 1 + vChoose("alen", L)
-	lb := 1 + vChoose("blen", L)
+	la := 1 + vChoose("alen", vParam("LA"))
+	lb := 1 + vChoose("blen", vParam("LB"))
 	as := vString("a", la)
 	bs := vString("b", lb)
 	c15ASCII(as)
@@ -164,4 +163,31 @@ func VerifC15Join() {
 	vAssert(c15EqList(j.Segments(), want), "Join did not append exactly the given segments")
 	vAssert(c.Covers(j), "a command does not cover its own extension")
 	vAssert(c15EqList(New(segs...).Segments(), want[len(c15Segs(cs)):]), "New(segments...) does not have exactly those segments")
+}
+
+// VerifC15ParseUnicode: one two-byte UTF-8 letter inside a command: rejected
+// exactly when it is an upper-case letter (title-case letters are excluded
+// from the assertion: the statement does not say which side they are on).
+func VerifC15ParseUnicode() {
+	b0 := vU8("b0")
+	b1 := vU8("b1")
+	vAssume(b0 >= 0xC2)
+	vAssume(b0 <= 0xDF)
+	vAssume(b1 >= 0x80)
+	vAssume(b1 <= 0xBF)
+	r := rune(b0&0x1f)<<6 | rune(b1&0x3f)
+	upper := c15IsUpper(r)
+	tail := vChoose("tail", 2)
+	s := "/a" + string([]byte{b0, b1})
+	if tail == 1 {
+		s += "/b"
+	}
+	_, err := Parse(s)
+	if upper {
+		vReach("upper")
+		vAssert(err != nil, "a command containing a non-ASCII upper-case letter was accepted")
+	} else {
+		vReach("not-upper")
+		vAssert(err == nil, "a command without upper-case letters was rejected")
+	}
 }
